@@ -60,6 +60,7 @@ func init() {
 	if n > 16 {
 		n = 16
 	}
+	reg(&spec{ID: "C07", Pkg: "./harness/c07", Level: "exploration", ShardsQ: n, ShardsT: n, DeadQ: 240, DeadT: 1800})
 	reg(&spec{ID: "C08", Pkg: "./harness/c08", Level: "model_checking", ShardsQ: n, ShardsT: n, DeadQ: 150, DeadT: 1500})
 	reg(&spec{ID: "C02", Pkg: "./harness/c02", Level: "exploration", ShardsQ: n, ShardsT: n, DeadQ: 240, DeadT: 1800})
 	reg(&spec{ID: "C03", Pkg: "./harness/c03", Level: "exploration", ShardsQ: n, ShardsT: n, DeadQ: 150, DeadT: 1500})
@@ -455,7 +456,7 @@ func workerCmd(sp *spec, bin string, args []string) *exec.Cmd {
 		cmd = exec.Command(bin, args...)
 	}
 	cmd.Dir = root
-	cmd.Env = append(os.Environ(), "VERIF_REPO_DIR="+repoDir())
+	cmd.Env = append(os.Environ(), "VERIF_REPO_DIR="+repoDir(), "VERIF_ROOT_DIR="+root)
 	return cmd
 }
 
